@@ -236,6 +236,37 @@ impl Dg {
         Ok(d)
     }
 
+    /// oriented smoothing of the real crossing `k` (sign +: join (0,1),(2,3) = H; sign -: join (0,3),(1,2) = V), kept in place as a resolved crossing
+    pub fn smooth_oriented(&self, k: usize) -> Result<Dg, String> {
+        let o = self.orient(0)?;
+        let sign = o.signs.get(k).cloned().flatten().ok_or("not a real crossing")?;
+        let t = self.x[k].0;
+        let mut d = self.clone();
+        // Xm is the mirror crossing type: its sign was already negated by orient(); the pairing of the slots by travel direction is the same
+        let pos = if t == CT::Xm { -sign } else { sign };
+        d.x[k].0 = if pos > 0 { CT::H } else { CT::V };
+        Ok(d)
+    }
+
+    /// the same diagram as a pure PD code: every resolved crossing is removed and the labels it joins are identified
+    /// (None if a resolved crossing joins a label to itself, i.e. a free circle would be lost)
+    pub fn purify(&self) -> Option<Dg> {
+        let mut d = self.clone();
+        loop {
+            let Some(k) = d.x.iter().position(|c| matches!(c.0, CT::V | CT::H)) else { return Some(d) };
+            let (t, e) = d.x[k];
+            let pairs = if t == CT::H { [(e[0], e[1]), (e[2], e[3])] } else { [(e[0], e[3]), (e[1], e[2])] };
+            if pairs[0].0 == pairs[0].1 || pairs[1].0 == pairs[1].1 { return None }
+            // the two pairs may share labels (a chain a-b, b-c): identify step by step
+            d.x.remove(k);
+            let mut map = |from: usize, to: usize, d: &mut Dg| { for c in d.x.iter_mut() { for l in c.1.iter_mut() { if *l == from { *l = to; } } } };
+            let (a, b) = pairs[0]; map(b, a, &mut d);
+            let (c0, c1) = pairs[1]; let (c0, c1) = (if c0 == b { a } else { c0 }, if c1 == b { a } else { c1 });
+            if c0 == c1 { return None }
+            map(c1, c0, &mut d);
+        }
+    }
+
     /// an unknotted circle laid over (over = true) or under an edge (Reidemeister II of a split unknot): L ~> L u O
     pub fn circle_across(&self, label: usize, over: bool) -> Result<Dg, String> {
         let o = self.orient(0)?;
